@@ -28,10 +28,17 @@ def desc_of(s) -> tuple:
     return (type(s).__name__, tuple(s.atoms), s.parity)
 
 
+NUMPY_PARITY = [False]  # build(..., numpy_parity=True): parities are handed over as numpy scalars (np.sign(...) results)
+
+
 def mk_desc(d):
     import stereomolgraph.stereodescriptors as sd
 
     c, atoms, p = d
+    if NUMPY_PARITY[0] and p is not None:
+        import numpy as np
+
+        p = (np.int64, np.int8, np.int32)[abs(hash((c, len(atoms)))) % 3](p)
     return getattr(sd, c)(fresh(tuple(atoms)), p)
 
 
@@ -128,7 +135,17 @@ def fresh(x):
     return x
 
 
-def build(pg: dict, cls_name: str | None = None, rng=None, idmap=None, rewrite=False):
+def build(pg: dict, cls_name: str | None = None, rng=None, idmap=None, rewrite=False, numpy_parity=False):
+    if numpy_parity:
+        NUMPY_PARITY[0] = True
+        try:
+            return build(pg, cls_name, rng=rng, idmap=idmap, rewrite=rewrite)
+        finally:
+            NUMPY_PARITY[0] = False
+    return _build(pg, cls_name, rng, idmap, rewrite)
+
+
+def _build(pg: dict, cls_name: str | None = None, rng=None, idmap=None, rewrite=False):
     """Construct a real graph through the public mutators only.
     rng      : shuffles the insertion order of atoms, bonds, descriptors, changes
     idmap    : bijection applied to all ids (does not use relabel_atoms)
